@@ -19,15 +19,16 @@ RULE = ('BFS over all histories of {new root, child, MultiContext([x,y]), Linked
         'delete_function} within the node/operation/depth bounds of each profile, deduplicated by a full snapshot of the real objects; '
         'every transition is judged on all observables of all contexts; a state is non-trivial when the forest contains a multi or linked '
         'context or a child, i.e. more than one layer is involved')
-ASSUMPTIONS = ['delete_function also clears the exclusive mark of that name in the stores it touches (documented code fact, DESIGN A.4)',
+ASSUMPTIONS = ['values are 1, 2 and null (a variable set to null is defined: it shadows farther layers and is a member/key)',
+               'delete_function also clears the exclusive mark of that name in the stores it touches (documented code fact, DESIGN A.4)',
                'values are small integers; function overloads are distinguishable zero-argument functions named f']
 BOUNDS = {
-    'quick': 'profile S (structure): <=5 contexts, <=2 data/function operations, depth 6; profile O (operations): <=3 contexts, depth 6; '
-             'profile M: <=4 contexts, <=3 operations, depth 6',
+    'quick': 'profile S (structure): <=5 contexts, <=1 data/function operation, depth 6; profile O (operations): <=3 contexts, <=5 operations, depth 5; '
+             'profile M: <=4 contexts, <=2 operations, depth 6; values {1, 2, null}',
     'thorough': 'profile S: <=5 contexts, <=3 operations, depth 7; profile O: <=3 contexts, depth 7; profile M: <=4 contexts, <=4 operations, depth 7',
 }
 
-SET_EVENTS = (('a', 1), ('a', 2), ('$', 1), ('1', 2), ('', 1))
+SET_EVENTS = (('a', 1), ('a', 2), ('a', None), ('$', 1), ('1', 2), ('', None))
 NAMES = ('a', '$', '1', '')
 TAGS = ('t0', 't1')
 CREATE = ('root', 'child', 'multi', 'linked')
@@ -245,7 +246,7 @@ def job_search(label, root_hist, max_nodes, max_ops, max_depth):
 
 
 PROFILES = {
-    'quick': (('S', 5, 1, 6), ('O', 3, 5, 5), ('M', 4, 2, 5)),
+    'quick': (('S', 5, 1, 6), ('O', 3, 5, 5), ('M', 4, 2, 6)),
     'thorough': (('S', 5, 3, 7), ('O', 3, 7, 7), ('M', 4, 4, 7)),
 }
 
